@@ -122,6 +122,43 @@ func v17Reserve(out *vOut, r *vRng, n int) {
 	}
 }
 
+// arbitrary rates and instants: float64 rounds, so delays are compared within 2 ns
+func v17ReserveApprox(out *vOut, r *vRng, n int) {
+	base := time.Unix(1700000000, 0)
+	for i := 0; i < n; i++ {
+		lq := []int64{1, 2, 3, 7, 10}[r.Intn(5)]
+		lp := lq + int64(r.Intn(400000))*lq/int64(1+r.Intn(3)) + int64(r.Intn(int(lq)))
+		lim := rate.Limit(float64(lp) / float64(lq))
+		burst := int64(1 + r.Intn(70000))
+		l := rate.NewLimiter(lim, int(burst))
+		steps := 1 + r.Intn(12)
+		t := int64(r.Intn(2000000000))
+		var reqs, obs []string
+		for s := 0; s < steps; s++ {
+			switch r.Intn(6) {
+			case 0:
+			case 1:
+				t += int64(r.Intn(3000000000))
+			default:
+				t += int64(r.Intn(30000000))
+			}
+			nn := int64(r.Intn(int(burst) + 2))
+			if r.Intn(3) == 0 {
+				nn = int64(r.Intn(1500))
+				if nn > burst {
+					nn = burst
+				}
+			}
+			at := base.Add(time.Duration(t))
+			d := l.ReserveN(at, int(nn)).DelayFrom(at)
+			reqs = append(reqs, fmt.Sprintf("(%s,%s)", cZ(t), cZ(nn)))
+			obs = append(obs, fmt.Sprintf("(%s,(-1))", cZ(int64(d))))
+		}
+		out.Case(fmt.Sprintf("CReserveApprox %s %s %s 2 [%s] [%s]", cZ(lp), cZ(lq), cZ(burst), strings.Join(reqs, ";"), strings.Join(obs, ";")),
+			"reserve:approx", steps >= 2, map[string]any{"limit": float64(lim), "burst": burst, "reqs": reqs, "obs": obs})
+	}
+}
+
 // ---------------------------------------------------------------- configurations
 
 type v17Cfg struct {
@@ -542,9 +579,9 @@ func v17RunTimed(c v17Timed, seed byte) (fails []v17Fail, pulled int64, elapsed 
 
 func v17TimedCases(out *vOut, r *vRng, n int) {
 	var cases []v17Timed
-	dur := 1500 * time.Millisecond
+	dur := 3 * time.Second
 	if vThorough() {
-		dur = 4 * time.Second
+		dur = 6 * time.Second
 	}
 	for i := 0; i < n; i++ {
 		c := v17Timed{conns: 1 + r.Intn(8), dur: dur}
@@ -617,9 +654,10 @@ func TestVerifC17(t *testing.T) {
 	r := vNewRng(vSeed())
 	n := vN(2000)
 	v17Reserve(out, r, n)
+	v17ReserveApprox(out, r, n/4)
 	v17ProvisionCases(out, r, n/5)
 	v17ReadCases(out, r, n/5)
-	nt := 12
+	nt := 16
 	if vThorough() {
 		nt = 48
 	}
